@@ -579,7 +579,7 @@ def rule_maxcount(ctx):
     lp = lends[0].loop if lends else None
     okk = len(loops) == 1 and lp is not None and lp.kind == "range" and lp.start == Lin.const(0) and lp.step == Lin.const(1) \
         and depth_p and lp.stop == Lin.term(("param", depth_p))
-    ctx.ob("scan-all", k, loops[0] if loops else k.node, "for %s" % (src(k, loops[0].iter, 40) if loops else "?"),
+    ctx.ob("scan-all", k, loops[0] if loops else k.node, "for %s" % (src(k, getattr(loops[0], "iter", None) or loops[0].test, 40) if loops else "?"),
            "the maximum runs over every row: one loop `range(depth)`", bool(okk))
     if not lends:
         return
